@@ -186,6 +186,22 @@ pub fn gen(tier: &str, seed: u64, out: &mut dyn FnMut(Value)) {
         c["procs"] = json!(procs);
         out(c)
     };
+    // (0) a long dependency chain reached by two paths of different length from one rule (whichever of the two
+    // dependencies is walked first, the outcome is the same)
+    for (depth, far, near) in [(81usize, 80usize, 30usize), (140, 139, 3), (70, 69, 68), (40, 39, 5)] {
+        use crate::dsl::{Form, Operand, SRule};
+        let mut rules = crate::props::engine_props::deep_chain(depth);
+        if let Some(last) = rules.last_mut() {
+            last.ty = Some("dependency".into());
+        }
+        for cond in [Form::And(Box::new(Form::V("$far".into())), Box::new(Form::V("$near".into()))), Form::Any(None), Form::N(1, None)] {
+            let mut rs = rules.clone();
+            rs.push(SRule { name: "top".into(), ops: vec![("$far".into(), Operand::Rule(format!("c{far}"))), ("$near".into(), Operand::Rule(format!("c{near}"))), ("$mid".into(), Operand::Rule(format!("c{}", (far + near) / 2)))], cond: Some(cond), severity: Some(4), ..Default::default() });
+            let events: Vec<Value> = ["1", "0"].iter().map(|x| json!({"source": "s", "id": 1, "fields": [[["f0"], {"s": x}]]})).collect();
+            let rj: Vec<Value> = rs.iter().map(|r| r.to_json(&mut rng)).collect();
+            wrap(json!({"rules": rj, "events": events, "tag": "a long chain reached by paths of different length", "nt": true}), 0, out);
+        }
+    }
     // (1) quantifier-heavy rule sets with erroring operands: the order-dependence the property names
     let cfg = Cfg { quant_prob: (2, 3), ..Cfg::default() };
     let mut k = 0u64;
